@@ -67,6 +67,9 @@ var c12Allow = []allowEntry{
 }
 
 func runC12(p *Prog, r *Report) {
+	r.Describe("C12.5/ErrClosed-means-closed", "transports produce ErrClosed only under a test of the object's own closed state: core stops accepting / redialling for good when it sees ErrClosed")
+	errClosedMeansClosed(p, r, "C12.5/ErrClosed-means-closed")
+	r.Floor("C12.5/ErrClosed-means-closed", "c12.errclosed_sites_in_transports", 10)
 	r.Describe("C12.1/E1", "lock typestate: held-at-return, double-lock, callee re-lock, unlock-not-held, inconsistent join")
 	e1Obligations(p, r, "C12.1/E1", map[string]bool{"held-at-return": true, "double-lock": true, "callee-relock": true, "unlock-not-held": true, "join": true})
 	r.Floor("C12.1/E1", "e1.functions_with_lock_ops", 150)
@@ -196,4 +199,87 @@ func lockBalance(p *Prog, r *Report, rule string, rels ...string) {
 	if nb == 0 {
 		r.OK(rule, strings.Join(rels, ","), "-", "no lock typestate issue")
 	}
+}
+
+// errClosedMeansClosed: in the transports, the value ErrClosed is produced only under a
+// condition on the object's own closed state (a closed/running/active flag, or a receive
+// from its close channel).  internal/core reads ErrClosed from Accept as "this listener
+// was closed: leave the accept loop for good" and from Dial as "stop redialling", so an
+// I/O failure or a peer hanging up must never be translated into it.
+func errClosedMeansClosed(p *Prog, r *Report, rule string) {
+	n := 0
+	stateAtom := func(a string) bool {
+		l := strings.ToLower(a)
+		// the state must be the object's own (a field of the receiver, or of the pipe
+		// object this very call created), not that of a peer object it met
+		own := strings.TrimPrefix(a, "!")
+		if !strings.HasPrefix(own, "recv.") && !strings.HasPrefix(own, "$complit.") && !strings.HasPrefix(own, "<-recv.") {
+			return false
+		}
+		for _, w := range []string{"closed", "closing", "running", "active", "closeq", "closech", "done"} {
+			if strings.Contains(l, w) {
+				return true
+			}
+		}
+		// not bound yet: the object's own listener handle is nil (Accept before Listen)
+		if a == "recv.l == nil" || a == "recv.listener == nil" {
+			return true
+		}
+		return false
+	}
+	for _, fn := range p.Funcs {
+		rel, _ := p.FuncRel(fn)
+		if !strings.HasPrefix(rel, "transport") {
+			continue
+		}
+		EachInstr(fn, func(in ssa.Instruction) {
+			mi, ok := in.(*ssa.MakeInterface)
+			if !ok {
+				return
+			}
+			if cst, ok := mi.X.(*ssa.Const); !ok || Desc(cst) != "ErrClosed" {
+				return
+			}
+			n++
+			key := p.FuncName(fn) + "/ErrClosed@" + strings.Join(p.GuardStrings(in), "&&")
+			okG := false
+			for _, a := range p.GuardStrings(in) {
+				if stateAtom(a) {
+					okG = true
+				}
+			}
+			// select arm on a close channel
+			if !okG {
+				for _, a := range p.GuardsOf(in.Block()) {
+					if bo, ok := a.Cond.(*ssa.BinOp); ok {
+						if ex, ok := bo.X.(*ssa.Extract); ok {
+							if sel, ok := ex.Tuple.(*ssa.Select); ok {
+								if k, ok := ConstInt(bo.Y); ok && a.Pol && int(k) < len(sel.States) && stateAtom(Desc(sel.States[k].Chan)) {
+									okG = true
+								}
+							}
+						}
+					}
+				}
+			}
+			// `if !active || closed { return ErrClosed }`: the block is entered by several
+			// edges, each of them a test of the object's own state
+			if !okG && len(in.Block().Preds) > 1 {
+				all := true
+				for _, pb := range in.Block().Preds {
+					iff, isIf := pb.Instrs[len(pb.Instrs)-1].(*ssa.If)
+					if !isIf {
+						all = false
+						break
+					}
+					if !stateAtom(NormAtom(iff.Cond, pb.Succs[0] == in.Block())) {
+						all = false
+					}
+				}
+				okG = all
+			}
+			r.Check(okG, rule, key, p.InstrPos(in), "ErrClosed produced under a test of the object's own closed state", "ErrClosed is produced on a condition that is not the object's own closed state ("+strings.Join(p.GuardStrings(in), " && ")+"): the core accept loop / redialler treats ErrClosed as 'endpoint closed' and stops for good, so one failing peer or I/O error silences the listener or dialer")
+		})
+	}
+	r.Count("c12.errclosed_sites_in_transports", n)
 }
